@@ -25,7 +25,8 @@ theorem friendly_move_legal_minimax (var : Variant) (color : Color) (size horizo
     (g : GameRec) (p : Pos) (o : CheckOracle) (f' : Option (Variant × Rule)) (a : Action)
     (hcol : g.color = color) (hview : viewOfPos p = viewOf t.cur) (hmv : p.toMove = t.cur.toMove)
     (hprev : prevViews g = t.prev.map (fun (q, m) => (viewOf q, m)))
-    (h : Glue.friendlyGetMove (some (var, t.rule)) g p o = .ok (f', a))
+    (r : Rule) (hnotes : Glue.entryNotes var r g p = .ok t.rule)
+    (h : Glue.friendlyGetMove (some (var, r)) g p o = .ok (f', a))
     -- the searching player is the alpha-beta model
     (basis : Array W) (hcur : t.cur = Spec.abs p) (hwf : WF basis p) (hlim : ∀ m, StackLimit p m)
     (ev : Pos → Int) (sym : Pos → List H) (cfg : Search.Cfg) (orc : Oracle Move) (hord : OrderOK orc)
@@ -52,9 +53,9 @@ theorem friendly_move_legal_minimax (var : Variant) (color : Color) (size horizo
         | ok q => exact ⟨q, rfl⟩
         | error e => rw [ha] at hok; cases hok
       have hrule := (C01.move_ok_iff C03.analyzeTotal basis p ans hwf hnp (hlim ans)).1 hacc
-      exact friendly_move_legal var color size horizon hH k hk t hreach g p o f' a hcol hview hmv hprev h ans
+      exact friendly_move_legal var color size horizon hH k hk t hreach g p o f' a hcol hview hmv hprev r hnotes h ans
         (fun _ => by rw [hcur]; exact hrule)
-  · exact friendly_move_legal var color size horizon hH k hk t hreach g p o f' a hcol hview hmv hprev h ans
+  · exact friendly_move_legal var color size horizon hH k hk t hreach g p o f' a hcol hview hmv hprev r hnotes h ans
       (fun hh => absurd hh hsr)
 
 /-- the two view hypotheses follow from `hcur` on a well-formed position -/
